@@ -559,6 +559,29 @@ func runCheck(prop, tier string, only, casesOverride, budgetOverride int) int {
 		}
 	}
 
+	// ---- the same cases in two differently started processes ------------------------
+	crossN := 0
+	if crossProcessProps[prop] && only < 0 {
+		n := 96
+		if tier == "thorough" {
+			n = 3000
+		}
+		if casesOverride > 0 && casesOverride < n {
+			n = casesOverride
+		}
+		idx, detail, err := crossProcess(bi.Bin, prop, tier, seed, n, -1, extraEnv)
+		if err != nil {
+			fatal2("cross-process phase: %v", err)
+		}
+		crossN = n
+		if idx >= 0 {
+			sig := prop + "/nondeterministic/across-processes"
+			rp := &Replay{Violation: Violation{Prop: prop, Oracle: "cross-process", Signature: sig, Detail: detail}, Note: "the case is evaluated in two fresh processes that differ in the time at which they start (VERIF_PROC_CLOCK), in the seed of the package-level random generators (VERIF_PROC_RAND) and in GOMAXPROCS"}
+			rp.Case, _ = json.Marshal(map[string]interface{}{"property": prop, "idx": idx, "seed": seed, "tier": tier, "cross_process": map[string]interface{}{"sample": n, "envs": crossEnvs}})
+			a.viols[sig] = rp
+		}
+	}
+
 	// ---- violations ---------------------------------------------------------------
 	var sigs []string
 	for s := range a.viols {
@@ -578,7 +601,17 @@ func runCheck(prop, tier string, only, casesOverride, budgetOverride int) int {
 		b, _ := json.MarshalIndent(rp, "", " ")
 		os.WriteFile(path, b, 0o644)
 		confirmed := true
-		if rp.Violation.Oracle != "process-death" {
+		if rp.Violation.Oracle == "cross-process" {
+			var cs struct {
+				Idx   int `json:"idx"`
+				Cross struct {
+					Sample int `json:"sample"`
+				} `json:"cross_process"`
+			}
+			json.Unmarshal(rp.Case, &cs)
+			idx, _, err := crossProcess(bi.Bin, prop, tier, seed, cs.Cross.Sample, cs.Idx, extraEnv)
+			confirmed = err == nil && idx >= 0
+		} else if rp.Violation.Oracle != "process-death" {
 			confirmed = false
 			for try := 0; try < 3 && !confirmed; try++ {
 				for _, pl := range pools {
@@ -680,6 +713,9 @@ func runCheck(prop, tier string, only, casesOverride, budgetOverride int) int {
 		"workers":                   W,
 		"budget_exhausted":          a.timedOut,
 		"worker_deaths":             len(a.deaths),
+	}
+	if crossN > 0 {
+		cover["cases_compared_across_two_differently_started_processes"] = crossN
 	}
 	ev := map[string]interface{}{
 		"property_id": prop,
@@ -790,6 +826,31 @@ func runReplay(path string) int {
 	if err != nil {
 		fatal2("build: %v", err)
 	}
+	if rp.Violation.Oracle == "cross-process" {
+		var cs struct {
+			Case struct {
+				Idx   int    `json:"idx"`
+				Seed  uint64 `json:"seed"`
+				Tier  string `json:"tier"`
+				Cross struct {
+					Sample int `json:"sample"`
+				} `json:"cross_process"`
+			} `json:"case"`
+		}
+		json.Unmarshal(b, &cs)
+		abs, _ := filepath.Abs(path)
+		idx, detail, err := crossProcess(bi.Bin, prop, cs.Case.Tier, cs.Case.Seed, cs.Case.Cross.Sample, cs.Case.Idx, []string{"VERIF_REPO=" + repoRoot})
+		if err != nil {
+			fatal2("replay: %v", err)
+		}
+		if idx >= 0 {
+			fmt.Println(detail)
+			fmt.Printf("VIOLATION property=%s replay=%s\n", prop, abs)
+			return 1
+		}
+		fmt.Println("replay: the recorded violation did not occur on the current tree")
+		return 0
+	}
 	extraEnv := []string{"VERIF_REPO=" + repoRoot, "GOMAXPROCS=2"}
 	if raceProps[prop] {
 		rb, err := buildRace(prop)
@@ -823,4 +884,58 @@ func runReplay(path string) int {
 	}
 	fmt.Println("replay: the recorded violation did not occur on the current tree")
 	return 0
+}
+
+// crossProcessProps lists the properties that promise the same result "on every
+// run": a sample of their cases is evaluated in two fresh worker processes that
+// differ in everything a process inherits from the moment and the machine it is
+// started on, and the per-case event-log hashes must agree.
+var crossProcessProps = map[string]bool{"C14": true}
+
+var crossEnvs = [][]string{
+	{"VERIF_PROC_CLOCK=1700000000", "VERIF_PROC_RAND=1", "GOMAXPROCS=2"},
+	{"VERIF_PROC_CLOCK=1893456001", "VERIF_PROC_RAND=7919", "GOMAXPROCS=16"},
+}
+
+// crossProcess returns the first case of the sample (or the one given) whose
+// hash differs between the two processes, or -1.
+func crossProcess(bin, prop, tier string, seed uint64, n, only int, extraEnv []string) (int, string, error) {
+	var hs [2]map[int]string
+	var errs [2]error
+	var wg sync.WaitGroup
+	W := numWorkers() / 2
+	if W < 1 {
+		W = 1
+	}
+	if only >= 0 {
+		W = 1
+	}
+	for k := 0; k < 2; k++ {
+		wg.Add(1)
+		go func(k int) {
+			defer wg.Done()
+			env := append(append([]string{}, extraEnv...), crossEnvs[k]...)
+			hs[k], errs[k] = collectHashesOnly(bin, prop, tier, seed, n, W, env, only)
+		}(k)
+	}
+	wg.Wait()
+	for _, e := range errs {
+		if e != nil {
+			return -1, "", e
+		}
+	}
+	var idx []int
+	for i := range hs[0] {
+		idx = append(idx, i)
+	}
+	sort.Ints(idx)
+	if len(idx) == 0 {
+		return -1, "", fmt.Errorf("no case was evaluated")
+	}
+	for _, i := range idx {
+		if hs[0][i] != hs[1][i] {
+			return i, fmt.Sprintf("case %d of a %d-case sample (seed %d, tier %s) gives event-log hash %s in a process started with %v and %s in one started with %v: what gopatch does depends on when or where the process was started", i, n, seed, tier, hs[0][i], crossEnvs[0], hs[1][i], crossEnvs[1]), nil
+		}
+	}
+	return -1, "", nil
 }
